@@ -68,6 +68,8 @@ class ConfigSampling(Harness):
         inp = dict(rng=mk.rng(cls=stubs.FirstPickRNG))
         if self.params.get("start") is not None and not mk.concrete:
             inp["rng"].scripted_first = list(self.params["start"])
+        if self.params.get("symbolic_shuffles") is not None and not mk.concrete:
+            inp["rng"].symbolic_calls = int(self.params["symbolic_shuffles"])     # later shuffles use the identity order (bound, see C17's inductive variant)
         if kind == "real":
             x = mk.real("x", (n,), lo=0, hi=1)
             mk.assume(sum(cells(x)[1:], cells(x)[0]) >= 1e-3)
@@ -421,6 +423,14 @@ def obligations(tier):
     starts = [[0, 1, 3, 2, 4, 5]] if tier == "quick" else [list(p) for p in itertools.permutations(range(6)) if p[0] == 0][::4]
     for st in starts:
         obs.append(ConfigSampling(kind="subset", n=4, decn=[0, 1, 2], ncross=2, nparent=3, start=st))
+    # more crosses than parents per cross (4x2), two individuals used four times each, from a start with two selfed crosses
+    h = ConfigSampling(kind="integer", n=3, decn=[4, 4, 0], ncross=4, nparent=2, start=[0, 4, 5, 1, 2, 3, 6, 7], symbolic_shuffles=2)
+    h.budget_s = 1200
+    obs.append(h)
+    # three parents per cross drawn from the cross map of unique triples
+    obs.append(ConfigSampling(kind="mate", n=4, decn=[0, 3], ncross=2, nparent=3))
+    # exactly one full set of the chosen subset (no remainder): the decision vector must come back untouched
+    obs.append(ConfigSampling(kind="subset", n=4, decn=[2, 0, 3, 1], ncross=2, nparent=2))
     for n, ncross, nparent, perm in ([(3, 1, 2, [2, 0, 1])] if tier == "quick" else [(3, 1, 2, [2, 0, 1]), (3, 1, 2, [1, 2, 0]), (4, 1, 2, [3, 1, 0, 2])]):
         h = Select(n=n, ncross=ncross, nparent=nparent, perm=perm)
         h.weight = 2000 if n == 4 else 200
